@@ -1,5 +1,6 @@
 /-
-`FittedAffine` is optimal over the class of alignments it explores
+`FittedAffine` as it was before the repairs of K1 and K3 (`fitAlignLegacy`, `fitTable false`)
+is optimal over the class of alignments it explored
 (`Spec.FittedRestricted.IsFittedRestricted`): every layer of every cell of its table, from
 column 1 on, is the optimum of the alignments of its prefixes that have no adjacent opposite
 gaps, end in that layer's kind and start with a letter pair (or, at reference position 0,
@@ -216,7 +217,7 @@ theorem r_l_first (S : Matrix) (o : Int) (rp : List Nat) (y : Nat) (hrp : rp ≠
 /-! ### row 0 -/
 
 theorem rcell_row0 {S : Matrix} {o : Int} {qp : List Nat} {c : Cell} (hq : qp ≠ [])
-    (h : CellOK Biogo.Proofs.NWAffine.flN S o [] qp c) : RCellOK S o [] qp c := by
+    (h : CellOK (Biogo.Proofs.NWAffine.flN false) S o [] qp c) : RCellOK S o [] qp c := by
   intro k
   refine isOpt_congr ?_ (h k)
   intro a
@@ -246,13 +247,13 @@ theorem take_ne_nil (l : List Nat) (j : Nat) (h : j < l.length) : l.take (j + 1)
     its class -/
 theorem fit_rcell (S : Matrix) (o : Int) (r q : List Nat) :
     ∀ i, i ≤ r.length → ∀ j, j < q.length →
-      RCellOK S o (r.take i) (q.take (j + 1)) (fitAt S o r q i (j + 1)) := by
+      RCellOK S o (r.take i) (q.take (j + 1)) (fitAt false S o r q i (j + 1)) := by
   intro i
   induction i with
   | zero =>
     intro _ j hj
-    rw [fitAt_row0]
-    have := optRows_ok Biogo.Proofs.NWAffine.flN S o r q 0 (j + 1) (Nat.zero_le _) (by omega)
+    rw [fitAt_row0 false S o r q _ false]
+    have := optRows_ok (Biogo.Proofs.NWAffine.flN false) S o r q 0 (j + 1) (Nat.zero_le _) (by omega)
     simp only [List.take_zero] at this ⊢
     exact rcell_row0 (take_ne_nil q j hj) this
   | succ i ihi =>
@@ -260,13 +261,13 @@ theorem fit_rcell (S : Matrix) (o : Int) (r q : List Nat) :
     induction j with
     | zero =>
       intro hj
-      rw [fitAt_inner S o r q i 0 (by omega) hj, take_succ_getD r i (by omega)]
+      rw [fitAt_inner false S o r q i 0 (by omega) hj, take_succ_getD r i (by omega)]
       have hq1 : q.take (0 + 1) = [] ++ [q.getD 0 0] := by
         rw [take_succ_getD q 0 hj]; rfl
-      have hpd : max3 (fitAt S o r q i 0).d (fitAt S o r q i 0).u (fitAt S o r q i 0).l = some 0 := by
+      have hpd : max3 (fitAt false S o r q i 0).d (fitAt false S o r q i 0).u (fitAt false S o r q i 0).l = some 0 := by
         cases i with
-        | zero => rw [fitAt_row0, optRows_origin]; rfl
-        | succ i' => rw [fitAt_col0 S o r q i' (by omega)]; rfl
+        | zero => rw [fitAt_row0 false S o r q _ false, optRows_origin]; rfl
+        | succ i' => rw [fitAt_col0 false S o r q i' (by omega)]; rfl
       intro k
       cases k with
       | m =>
@@ -274,27 +275,27 @@ theorem fit_rcell (S : Matrix) (o : Int) (r q : List Nat) :
         rw [hq1]
         exact r_m_first S o _ _ _
       | u =>
-        simp only [Cell.get, nwCell]
+        simp only [Cell.get, nwCell, gapLayer_false]
         exact r_u_step _ (take_ne_nil q 0 hj) (ihi (by omega) 0 hj)
       | l =>
-        simp only [Cell.get, nwCell]
-        rw [fitAt_col0 S o r q i (by omega), hq1, ← take_succ_getD r i (by omega)]
+        simp only [Cell.get, nwCell, gapLayer_false]
+        rw [fitAt_col0 false S o r q i (by omega), hq1, ← take_succ_getD r i (by omega)]
         exact r_l_first S o _ _ (take_ne_nil r i (by omega))
     | succ j ihj =>
       intro hj
-      rw [fitAt_inner S o r q i (j + 1) (by omega) hj, take_succ_getD r i (by omega),
+      rw [fitAt_inner false S o r q i (j + 1) (by omega) hj, take_succ_getD r i (by omega),
         take_succ_getD q (j + 1) hj]
       intro k
       cases k with
       | m =>
-        simp only [Cell.get, nwCell]
+        simp only [Cell.get, nwCell, gapLayer_false]
         exact r_m_step _ _ (take_ne_nil q j (by omega)) (ihi (by omega) j (by omega))
       | u =>
-        simp only [Cell.get, nwCell]
+        simp only [Cell.get, nwCell, gapLayer_false]
         rw [← take_succ_getD q (j + 1) hj]
         exact r_u_step _ (take_ne_nil q (j + 1) hj) (ihi (by omega) (j + 1) hj)
       | l =>
-        simp only [Cell.get, nwCell]
+        simp only [Cell.get, nwCell, gapLayer_false]
         rw [← take_succ_getD r i (by omega)]
         exact r_l_step _ (take_ne_nil q j (by omega)) (ihj (by omega))
 
@@ -333,7 +334,7 @@ theorem rcls_iff_restricted (r q : List Nat) (e : Nat) (he : e ≤ r.length) (hq
     opposite gaps, end with a letter pair and start with a letter pair (or, from reference
     position 0, with a gap in the reference). -/
 theorem fitAlign_restricted_opt (S : Matrix) (o : Int) (r q : List Nat) (hr : r ≠ []) (hq : q ≠ []) :
-    ∃ ps, fitAlign S o r q = .ok ps ∧
+    ∃ ps, fitAlignLegacy S o r q = .ok ps ∧
       (∀ a, IsFittedRestricted a r q (Biogo.Spec.AffPairs.lastEnd ps).1 → scoreAff S o a ≤ total ps) ∧
       (∃ a, IsFittedRestricted a r q (Biogo.Spec.AffPairs.lastEnd ps).1 ∧ scoreAff S o a = total ps) := by
   have hC : 1 ≤ q.length := by cases q with | nil => exact absurd rfl hq | cons _ _ => simp
@@ -342,7 +343,7 @@ theorem fitAlign_restricted_opt (S : Matrix) (o : Int) (r q : List Nat) (hr : r 
   have hcell := fit_rcell S o r q e heR C' (by omega) .m
   rw [← hC', List.take_length] at hcell
   have hopt : IsOpt (fun a => IsFittedRestricted a r q e) (scoreAff S o) (some x) := by
-    have : ((fitAt S o r q e q.length).get .m) = some x := hx
+    have : ((fitAt false S o r q e q.length).get .m) = some x := hx
     rw [this] at hcell
     exact isOpt_congr (rcls_iff_restricted r q e heR hq) hcell
   refine ⟨ps, hps, ?_, ?_⟩
@@ -358,12 +359,12 @@ theorem fitAlign_restricted_opt (S : Matrix) (o : Int) (r q : List Nat) (hr : r 
     of the class for end `e` (the yardstick the driver of C08 uses for finding K3) -/
 theorem fitTable_restricted_opt (S : Matrix) (o : Int) (r q : List Nat) (hq : q ≠ []) (e : Nat)
     (he : e ≤ r.length) :
-    IsOpt (fun a => IsFittedRestricted a r q e) (scoreAff S o) ((fitTable S o r q).at e q.length).d := by
+    IsOpt (fun a => IsFittedRestricted a r q e) (scoreAff S o) ((fitTable false S o r q).at e q.length).d := by
   have hC : 1 ≤ q.length := by cases q with | nil => exact absurd rfl hq | cons _ _ => simp
   obtain ⟨C', hC'⟩ : ∃ C', q.length = C' + 1 := ⟨q.length - 1, by omega⟩
   have hcell := fit_rcell S o r q e he C' (by omega) .m
   rw [← hC', List.take_length] at hcell
-  rw [fitTable_at S o r q e q.length (Nat.le_refl _)]
+  rw [fitTable_at false S o r q e q.length (Nat.le_refl _)]
   exact isOpt_congr (rcls_iff_restricted r q e he hq) hcell
 
 end Biogo.Proofs.FittedClass
